@@ -14,10 +14,10 @@ from .values import ObjModel, VFunc
 
 class Contract:
     def __init__(self, key, *, params=None, self_model=None, returns=None, requires=(), ensures=(),
-                 raises=None, raises_ensures=None, modifies=(), loops=None, inline=False,
+                 raises=None, raises_ensures=None, modifies=None, loops=None, inline=False,
                  trusted=False, prop=None, closure=None, note="", param_names=None,
                  allow_any_raise=False, replay=None, cases=None, ghost_params=None, frame=None,
-                 decreases=None, raise_modifies=(), assumes=(), ghost_after=None, inline_callees=(), tier="quick", call_inline=False, raises_fields=None, defaults=None):
+                 decreases=None, raise_modifies=None, assumes=(), ghost_after=None, inline_callees=(), tier="quick", call_inline=False, raises_fields=None, defaults=None):
         # default values (expression text) of parameters of model methods, which have no real signature
         self.defaults = {k: self._p(v) for k, v in (defaults or {}).items()}
         self.key = key
@@ -35,8 +35,13 @@ class Contract:
         self.raises_src = dict(raises or {})
         self.raises_ensures = {k: [self._p(x) for x in v] for k, v in (raises_ensures or {}).items()}
         self.raises_ensures_src = dict(raises_ensures or {})
-        self.modifies = list(modifies)
-        self.raise_modifies = list(raise_modifies)
+        # frame: what the call may change.  Declared -> checked when the function is verified (frame obligations)
+        # and the only thing havoced at call sites.  Not declared -> nothing is checked, and call sites of a
+        # verified (non-trusted) contract havoc everything reachable from the arguments.
+        self.modifies_declared = modifies is not None
+        self.modifies = list(modifies or ())
+        # on an exceptional exit: as declared, else (conservatively) the same as on a normal one
+        self.raise_modifies = list(raise_modifies) if raise_modifies is not None else list(self.modifies)
         self.loops = {}
         for o, sp in (loops or {}).items():
             sp = dict(sp)
@@ -245,6 +250,10 @@ class Registry:
                     interp.ctx.assume(veq(res, val), f"ghost-def:{name}")
             return res
         self.spec_names[name] = VBuiltin("defn:" + name, impl)
+        if body is not None:
+            # native meaning (replay): the definition itself
+            self.defn_src = getattr(self, "defn_src", {})
+            self.defn_src[name] = (sig, body)
         self.spec_src[name] = (sig, body)
 
     def lemma_spec(self, prop, name, vars, assumes=(), hints=(), goals=()):
